@@ -113,10 +113,17 @@ def mkSettings (d : Defn) (s : St) (value lower upper : Option Rat) (const : Boo
       | .error e => .error e
       | .ok l => .ok ((sc, σ) :: l)
 
-/-- an edge name that is not in the tree -/
+/-- some edge name occurs more than once in the list -/
+def hasDup : List Nat → Bool
+  | [] => false
+  | a :: as => as.contains a || hasDup as
+
+/-- `interpret_scope` raises `InvalidScopeError(unused)`: `unused[d] = kw[d][:]` loses ONE occurrence of
+an edge name per matching scope, so what is left over is every name that is not in the tree and
+every repeated occurrence of a name (`edges=['Cat','Cat']` raises, replayed on the real code) -/
 def badEdges (d : Defn) (edges : Option (List Nat)) : Bool :=
   match edges with
-  | some es => es.any (fun e => decide (d.nEdges ≤ e))
+  | some es => es.any (fun e => decide (d.nEdges ≤ e)) || hasDup es
   | none => false
 
 /-- `if independent is None: independent = self.independent_by_default` -/
@@ -128,7 +135,7 @@ def indepOf (d : Defn) (o : Option Bool) : Bool :=
 /-- `_LeafDefn.assign_all` -/
 def assignAll (d : Defn) (s : St) (edges : Option (List Nat)) (value lower upper : Option Rat)
     (const independent : Bool) : Except String St :=
-  if badEdges d edges then .error "unknown edge"
+  if badEdges d edges then .error "InvalidScopeError"
   else
     match mkSettings d s value lower upper const (scopes d edges independent) with
     | .error e => .error e
